@@ -54,8 +54,13 @@ pub fn fork_run(f: impl FnOnce(i32)) -> ChildOutcome {
     let pid = unsafe { fork() };
     assert!(pid >= 0, "fork failed");
     if pid == 0 {
-        unsafe { close(fds[0]) };
-        silence_stderr();
+        unsafe {
+            close(fds[0]);
+            // stderr joins the result pipe: the parent tells the documented
+            // `handle_alloc_error` abort ("memory allocation of N bytes
+            // failed") from any other abort by its message
+            dup2(fds[1], 2);
+        }
         f(fds[1]);
         unsafe {
             close(fds[1]);
